@@ -4128,3 +4128,357 @@ func ruleBatchReadReportsCounter(c *core.Ctx) {
 		c.Undecided(rule, "anchor/batch reader", d.Pos(), "no emitted …Impl(std::vector<T>& values) method found")
 	}
 }
+
+// GR1 (C02/C17): an emitted reader fully overwrites its destination. In every `from_json(ordered_json const& j, T& value)`
+// the C++ NDJSON generator emits, an emission that ACCUMULATES into `value` (`value |= …`, push_back / emplace / insert
+// on it) is preceded, in the same emitted function, by one that resets it (`value = …;`, `value.clear()`). The generated
+// stream readers pass the same object for every item, so without the reset item n carries what item n-1 left behind —
+// the generated-code counterpart of rule SR1 for the runtime headers.
+func ruleEmittedReadersOverwrite(c *core.Ctx) {
+	const rule = "GR1"
+	c.Rule(rule, "cpp/ndjson: in every emitted from_json(j, value) an accumulating emission into `value` is preceded by an emission that resets `value`", 1)
+	accRe := regexp.MustCompile(`(^|[^A-Za-z0-9_.])value(\.[A-Za-z_]+)?\s*(\|=|\+=|&=|\.push_back\(|\.emplace\(|\.emplace_back\(|\.insert\(|\.insert_or_assign\(|\.append\()`)
+	resetRe := regexp.MustCompile(`(^|[^A-Za-z0-9_.])value\s*(=[^=]|\.clear\(\)|\.resize\(|\.assign\()`)
+	n := 0
+	for d, rows := range pkgRows(c, "internal/cpp/ndjson") {
+		var emits []gee.Row
+		for _, r := range rows {
+			if r.Kind == "emit" {
+				emits = append(emits, r)
+			}
+		}
+		start := -1
+		flush := func(end int) {
+			if start < 0 {
+				return
+			}
+			group := emits[start:end]
+			reset := false
+			depth := 1 // inside the braces of the emitted function
+			for _, r := range group[1:] {
+				// a reset counts when it is emitted at the top level of the C++ function (not inside an emitted `if (...) {`
+				// that returns early)
+				if resetRe.MatchString(r.Tmpl) && depth == 1 {
+					reset = true
+				}
+				depth += strings.Count(r.Tmpl, "{") - strings.Count(r.Tmpl, "}")
+				if accRe.MatchString(r.Tmpl) {
+					n++
+					key := fmt.Sprintf("%s/from_json/%s", c.FuncName(d), strings.TrimSpace(strings.Split(r.Tmpl, "\n")[0]))
+					c.Check(reset, rule, key, r.Pos, "`value` is reset before it is accumulated into",
+						"the emitted from_json accumulates into `value` (`"+strings.TrimSpace(r.Tmpl)+"`) without resetting it first: the generated stream reader reuses one object for all items, so every item keeps the bits / elements of the items read before it")
+				}
+			}
+		}
+		for i, r := range emits {
+			t := strings.TrimSpace(r.Tmpl)
+			if strings.Contains(t, "from_json(") && strings.HasSuffix(t, "{") {
+				flush(i)
+				start = i
+			} else if strings.Contains(t, "to_json(") && strings.HasSuffix(t, "{") {
+				flush(i)
+				start = -1
+			}
+		}
+		flush(len(emits))
+	}
+	if n == 0 {
+		c.Undecided(rule, "anchor/accumulating from_json", 0, "no emitted from_json that accumulates into its destination found")
+	}
+}
+
+// Z1: no test that cannot hold. The shape predicates of dsl.TypeCases (IsSingle, IsOptional, IsUnion, HasNullOption) are
+// boolean functions of the number of cases and of whether the first case is null; their bodies are evaluated over that
+// domain (0, 1, 2, 3+ cases x first-null) to find the pairs that exclude each other. A predicate called on X where an
+// excluding predicate of the same X is known to hold (enclosing `if X.Q()`, an earlier `if !X.Q() { leave }`) is always
+// false: the branch behind it is dead and what it was meant to handle goes down the other one.
+func ruleNoContradictoryShapeTests(c *core.Ctx) {
+	const rule = "Z1"
+	c.Rule(rule, "no TypeCases shape predicate is tested where a predicate of the same value that excludes it is known to hold", 1)
+	dslp := c.Pkg("pkg/dsl")
+	if dslp == nil {
+		c.Undecided(rule, "anchor/pkg/dsl", 0, "package not loaded")
+		return
+	}
+	// truth tables of the predicates
+	type point struct {
+		n         int
+		firstNull bool
+	}
+	var domain []point
+	for _, n := range []int{0, 1, 2, 3} {
+		for _, fn := range []bool{false, true} {
+			domain = append(domain, point{n, fn})
+		}
+	}
+	tables := map[string][]bool{}
+	for _, d := range c.AllDecls() {
+		if c.DeclPkg(d) != dslp || d.Recv == nil || d.Body == nil || len(d.Body.List) != 1 {
+			continue
+		}
+		rt := dslp.TypesInfo.TypeOf(d.Recv.List[0].Type)
+		if nt := core.NamedOf(rt); nt == nil || nt.Obj().Name() != "TypeCases" {
+			continue
+		}
+		ret, ok := d.Body.List[0].(*ast.ReturnStmt)
+		if !ok || len(ret.Results) != 1 {
+			continue
+		}
+		var ev func(e ast.Expr, pt point) (bool, bool)
+		var evInt func(e ast.Expr, pt point) (int, bool)
+		evInt = func(e ast.Expr, pt point) (int, bool) {
+			if v, ok := constInt(dslp.TypesInfo, e); ok {
+				return v, true
+			}
+			if _, isLen := lenArg(dslp.TypesInfo, e); isLen {
+				return pt.n, true
+			}
+			return 0, false
+		}
+		ev = func(e ast.Expr, pt point) (bool, bool) {
+			switch x := ast.Unparen(e).(type) {
+			case *ast.UnaryExpr:
+				if x.Op == token.NOT {
+					v, ok := ev(x.X, pt)
+					return !v, ok
+				}
+			case *ast.BinaryExpr:
+				switch x.Op {
+				case token.LAND, token.LOR:
+					a, oka := ev(x.X, pt)
+					if oka && ((x.Op == token.LAND && !a) || (x.Op == token.LOR && a)) {
+						return a, true // short circuit: the right operand (an index into the cases) is not evaluated
+					}
+					b, okb := ev(x.Y, pt)
+					if !oka || !okb {
+						return false, false
+					}
+					if x.Op == token.LAND {
+						return a && b, true
+					}
+					return a || b, true
+				case token.EQL, token.NEQ, token.LSS, token.LEQ, token.GTR, token.GEQ:
+					l, okl := evInt(x.X, pt)
+					r, okr := evInt(x.Y, pt)
+					if !okl || !okr {
+						return false, false
+					}
+					switch x.Op {
+					case token.EQL:
+						return l == r, true
+					case token.NEQ:
+						return l != r, true
+					case token.LSS:
+						return l < r, true
+					case token.LEQ:
+						return l <= r, true
+					case token.GTR:
+						return l > r, true
+					case token.GEQ:
+						return l >= r, true
+					}
+				}
+			case *ast.CallExpr:
+				// (*tcs)[0].IsNullType() / tcs[0].Type == nil
+				if se, ok := ast.Unparen(x.Fun).(*ast.SelectorExpr); ok && se.Sel.Name == "IsNullType" {
+					if ix, ok := ast.Unparen(se.X).(*ast.IndexExpr); ok {
+						if v, ok := constInt(dslp.TypesInfo, ix.Index); ok && v == 0 {
+							if pt.n == 0 {
+								return false, false
+							}
+							return pt.firstNull, true
+						}
+					}
+				}
+			}
+			return false, false
+		}
+		var tbl []bool
+		good := true
+		for _, pt := range domain {
+			v, ok := ev(ret.Results[0], pt)
+			if !ok {
+				good = false
+				break
+			}
+			tbl = append(tbl, v)
+		}
+		if good {
+			tables[d.Name.Name] = tbl
+		}
+	}
+	if len(tables) < 3 {
+		c.Undecided(rule, "anchor/TypeCases predicates", 0, fmt.Sprintf("only %d shape predicates of dsl.TypeCases could be evaluated", len(tables)))
+		return
+	}
+	excludes := func(p, q string) bool {
+		a, b := tables[p], tables[q]
+		if a == nil || b == nil || p == q {
+			return false
+		}
+		for i := range a {
+			if a[i] && b[i] {
+				return false
+			}
+		}
+		return true
+	}
+	predCall := func(info *types.Info, e ast.Expr) (string, string, bool) {
+		ce, ok := ast.Unparen(e).(*ast.CallExpr)
+		if !ok || len(ce.Args) != 0 {
+			return "", "", false
+		}
+		se, ok := ast.Unparen(ce.Fun).(*ast.SelectorExpr)
+		if !ok || tables[se.Sel.Name] == nil {
+			return "", "", false
+		}
+		f := core.Callee(info, ce)
+		if f == nil || f.Pkg() != dslp.Types {
+			return "", "", false
+		}
+		return types.ExprString(se.X), se.Sel.Name, true
+	}
+	n := 0
+	for _, d := range c.AllDecls() {
+		p := c.DeclPkg(d)
+		if p == nil || d.Body == nil || c.IsTestFile(d.Pos()) || !strings.HasPrefix(p.PkgPath, core.Mod) {
+			continue
+		}
+		info := p.TypesInfo
+		// known-true predicate calls by lexical context
+		var walk func(n ast.Node, known map[string][]string)
+		checkExpr := func(e ast.Expr, known map[string][]string) {
+			ast.Inspect(e, func(m ast.Node) bool {
+				ex, ok := m.(ast.Expr)
+				if !ok {
+					return true
+				}
+				if recv, pred, ok := predCall(info, ex); ok {
+					n++
+					for _, q := range known[recv] {
+						if excludes(pred, q) {
+							c.Bad(rule, fmt.Sprintf("%s/%s.%s() under %s()", c.FuncName(d), recv, pred, q), ex.Pos(),
+								fmt.Sprintf("`%s.%s()` is tested where `%s.%s()` is known to hold; the two never hold together (evaluated from their definitions), so this test is always false and its branch is dead", recv, pred, recv, q))
+						}
+					}
+				}
+				return true
+			})
+		}
+		add := func(known map[string][]string, cond ast.Expr) map[string][]string {
+			out := map[string][]string{}
+			for k, v := range known {
+				out[k] = append([]string(nil), v...)
+			}
+			for _, part := range conjuncts(cond) {
+				if recv, pred, ok := predCall(info, part); ok {
+					out[recv] = append(out[recv], pred)
+				}
+			}
+			return out
+		}
+		walk = func(nn ast.Node, known map[string][]string) {
+			switch x := nn.(type) {
+			case *ast.BlockStmt:
+				cur := known
+				for _, st := range x.List {
+					walk(st, cur)
+					// `if !X.Q() { leave }`: X.Q() holds afterwards
+					if is, ok := st.(*ast.IfStmt); ok && is.Else == nil && len(is.Body.List) > 0 && stmtLeaves(is.Body.List[len(is.Body.List)-1]) {
+						if u, ok := ast.Unparen(is.Cond).(*ast.UnaryExpr); ok && u.Op == token.NOT {
+							cur = add(cur, u.X)
+						}
+					}
+				}
+			case *ast.IfStmt:
+				if x.Init != nil {
+					walk(x.Init, known)
+				}
+				checkExpr(x.Cond, known)
+				walk(x.Body, add(known, x.Cond))
+				if x.Else != nil {
+					walk(x.Else, known)
+				}
+			case *ast.ForStmt:
+				if x.Cond != nil {
+					checkExpr(x.Cond, known)
+				}
+				walk(x.Body, known)
+			case *ast.RangeStmt:
+				checkExpr(x.X, known)
+				walk(x.Body, known)
+			case *ast.SwitchStmt:
+				if x.Tag != nil {
+					checkExpr(x.Tag, known)
+				}
+				for _, cl := range x.Body.List {
+					cc := cl.(*ast.CaseClause)
+					k2 := known
+					for _, e := range cc.List {
+						checkExpr(e, known)
+						if x.Tag == nil && len(cc.List) == 1 {
+							k2 = add(known, e)
+						}
+					}
+					walk(&ast.BlockStmt{List: cc.Body}, k2)
+				}
+			case *ast.TypeSwitchStmt:
+				for _, cl := range x.Body.List {
+					walk(&ast.BlockStmt{List: cl.(*ast.CaseClause).Body}, known)
+				}
+			case *ast.ExprStmt:
+				checkExprWithLits(x.X, known, checkExpr, walk)
+			case *ast.AssignStmt:
+				for _, r := range x.Rhs {
+					checkExprWithLits(r, known, checkExpr, walk)
+				}
+			case *ast.ReturnStmt:
+				for _, r := range x.Results {
+					checkExprWithLits(r, known, checkExpr, walk)
+				}
+			case *ast.DeclStmt, *ast.IncDecStmt, *ast.BranchStmt, *ast.DeferStmt, *ast.GoStmt:
+			case *ast.LabeledStmt:
+				walk(x.Stmt, known)
+			}
+		}
+		walk(d.Body, map[string][]string{})
+	}
+	if n < 10 {
+		c.Undecided(rule, "anchor/predicate calls", 0, fmt.Sprintf("only %d calls of TypeCases shape predicates seen", n))
+		return
+	}
+	c.OK(rule, "anchor/predicate calls", 0, fmt.Sprintf("%d calls of %d evaluated shape predicates checked against their context", n, len(tables)))
+	c.Tables["Z1_predicate_tables"] = tables
+}
+
+// checkExprWithLits checks an expression and walks into the bodies of function literals inside it with the same context
+// (closures handed to visitors run under the conditions they are written under only lexically; that is what is asked).
+func checkExprWithLits(e ast.Expr, known map[string][]string, checkExpr func(ast.Expr, map[string][]string), walk func(ast.Node, map[string][]string)) {
+	hasLit := false
+	ast.Inspect(e, func(m ast.Node) bool {
+		if fl, ok := m.(*ast.FuncLit); ok {
+			hasLit = true
+			walk(fl.Body, known)
+			return false
+		}
+		return true
+	})
+	if !hasLit {
+		checkExpr(e, known)
+		return
+	}
+	// the parts outside the literals
+	ast.Inspect(e, func(m ast.Node) bool {
+		if _, ok := m.(*ast.FuncLit); ok {
+			return false
+		}
+		if ce, ok := m.(*ast.CallExpr); ok {
+			for _, a := range ce.Args {
+				if _, isLit := ast.Unparen(a).(*ast.FuncLit); !isLit {
+					checkExpr(a, known)
+				}
+			}
+		}
+		return true
+	})
+}
